@@ -16,7 +16,7 @@ const DRAIN_LIMIT: usize = 100_000;
 // prefix types
 // ---------------------------------------------------------------------------------------------
 
-trait HP: Prefix + Clone + PartialEq + std::fmt::Debug {
+trait HP: Prefix + Clone + PartialEq + std::fmt::Debug + Send + Sync {
     const W: u32;
     fn mk(repr: u128, len: u8) -> Self;
     fn raw(&self) -> u128 {
@@ -104,7 +104,7 @@ hp_from!(cidr::Ipv6Inet, 128, u128);
 // values
 // ---------------------------------------------------------------------------------------------
 
-trait HV: Clone + PartialEq + std::fmt::Debug + 'static {
+trait HV: Clone + PartialEq + std::fmt::Debug + Send + Sync + 'static {
     fn show(&self) -> String;
     fn bump(&mut self, d: i64);
     fn put(&mut self, v: i64);
@@ -1288,6 +1288,46 @@ fn step<P: HP>(st: &mut St<P>, line: &str) -> String {
                     match nav_mut($m.view_mut(), &steps) {
                         Ok(v) => viewmut_action(v, action),
                         Err(e) => e,
+                    }
+                };
+            }
+            match *r {
+                "A" => go!(&mut st.a),
+                "B" => go!(&mut st.b),
+                "S" => go!(&mut st.s),
+                _ => "bad-op".into(),
+            }
+        }
+        ["par_bump", r, d, rest @ ..] => {
+            // two threads mutate the two sides of a split view concurrently
+            let Some(steps) = parse_steps::<P>(rest) else { return "bad-op".into() };
+            let Some(d) = parse_i(d) else { return "bad-op".into() };
+            macro_rules! go {
+                ($m:expr) => {
+                    match nav_mut($m.view_mut(), &steps) {
+                        Err(e) => e,
+                        Ok(v) => {
+                            let (l, r) = v.split();
+                            std::thread::scope(|s| {
+                                if let Some(mut l) = l {
+                                    s.spawn(move || {
+                                        for (_, x) in l.iter_mut() {
+                                            std::thread::yield_now();
+                                            x.bump(d)
+                                        }
+                                    });
+                                }
+                                if let Some(mut r) = r {
+                                    s.spawn(move || {
+                                        for (_, x) in r.iter_mut() {
+                                            std::thread::yield_now();
+                                            x.bump(d)
+                                        }
+                                    });
+                                }
+                            });
+                            "ok".into()
+                        }
                     }
                 };
             }
